@@ -584,6 +584,10 @@ def _trace_case(r, obs):
                     while any(live):
                         i = turn % 2
                         turn += 1
+                        if live[i] and len(outs[i]) >= len(res_ref) and out_ref != "exhausted":
+                            # the reference was read up to a cap: stop this run there too
+                            gens[i].close()
+                            live[i] = False
                         if not live[i]:
                             continue
                         try:
@@ -598,10 +602,15 @@ def _trace_case(r, obs):
                 except Exception as e:  # pylint: disable=broad-except
                     outs = ["raised %r" % (e,), None]
             obs.count("stop_points_checked")
+            first = [(j, a, b, c) for j, (a, b, c) in enumerate(zip(outs[0] or [], outs[1] or [],
+                                                                    res_ref))
+                     if not a == b == c][:1]
             obs.check(outs[0] == res_ref and outs[1] == res_ref,
                       "values-differ-from-lazy-reference:two-live-runs-of-one-pipeline",
-                      "two runs of one pipeline object consumed alternately give %r and %r, the "
-                      "reference %r (%s)" % (outs[0], outs[1], res_ref, sig))
+                      "two runs of one pipeline object consumed alternately give %d and %d "
+                      "results, the reference %d; first difference (index, run 1, run 2, "
+                      "reference): %r (%s)"
+                      % (len(outs[0] or []), len(outs[1] or []), len(res_ref), first, sig))
             obs.check(bad_pull is None, "pulls-more-than-needed:two-live-runs-of-one-pipeline",
                       "two runs of one pipeline object consumed alternately: run %r had pulled %r "
                       "values when it delivered its result %r, the reference needs %r (%s)"
